@@ -1,5 +1,6 @@
 //! Correspondence harness: generates cases from (seed, case number), runs the real crate in-process
 //! and prints one self-contained case per line for the Lean judge.
+mod c02;
 mod c12;
 mod c13;
 mod c16;
@@ -27,6 +28,8 @@ fn main() {
         let mut rng = Rng::new(seed, case);
         let line = std::panic::catch_unwind(std::panic::AssertUnwindSafe(|| match kind {
             "C16" => c16::case(&mut rng),
+            "C02" => c02::case(&mut rng, false),
+            "C02T" => c02::case(&mut rng, true),
             "C12" => c12::case(&mut rng, false),
             "C12T" => c12::case(&mut rng, true),
             "C13" => c13::case(&mut rng, false),
